@@ -5,5 +5,7 @@ MONITORS = {
     "C01": ["monitors.c01"],
     "C02": ["monitors.c02"],
     "C03": ["monitors.c03"],
+    "C04": ["monitors.c04"],
+    "C05": ["monitors.c05"],
     "C08": ["monitors.c08"],
 }
